@@ -390,8 +390,8 @@ pub fn gen_model(r: &mut Rng) -> Model {
         let ext = r.chance(3, 4).then(|| ExtDoc {
             message_type: r.chance(3, 4).then(|| "DLT_TYPE_LOG".to_string()),
             message_info: r.chance(3, 4).then(|| "DLT_LOG_WARN".to_string()),
-            application_id: r.chance(5, 6).then(|| r.pick(&["DR", "APP", "A&B"]).to_string()),
-            context_id: r.chance(5, 6).then(|| r.pick(&["CTX1", "C", "T<1"]).to_string()),
+            application_id: r.chance(5, 6).then(|| r.pick(&["DR", "APP", "A&B", "APP", "DR", "APP\u{e9}", "LONGAPPID", "\u{c4}\u{d6}\u{dc}", "AB\u{20ac}D"]).to_string()),
+            context_id: r.chance(5, 6).then(|| r.pick(&["CTX1", "C", "T<1", "CTX1", "C", "CT\u{20ac}1", "CONTEXT-LONG", "\u{1f600}", "abc\u{e9}\u{e9}"]).to_string()),
         });
         if let Some(e) = &ext {
             if let (Some(a), Some(c)) = (&e.application_id, &e.context_id) {
